@@ -77,6 +77,10 @@ func main() {
 	fset := token.NewFileSet()
 	var files []*ast.File
 	args := os.Args[1:]
+	if len(args) > 0 && args[0] == "-cvt" {
+		cvtMode(out, args[1:])
+		return
+	}
 	blocksMode := len(args) > 0 && args[0] == "-blocks"
 	if blocksMode {
 		args = args[1:]
